@@ -19,11 +19,11 @@
 #include "/repo/src/backup.cpp"
 template class std::basic_string<char>;
 
-#ifndef LO
-#define LO VP_FS_L      /* length of the original content */
+#ifndef VPLO
+#define VPLO VP_FS_L      /* length of the original content */
 #endif
-#ifndef LF
-#define LF VP_FS_L      /* length of the formatted content */
+#ifndef VPLF
+#define VPLF VP_FS_L      /* length of the formatted content */
 #endif
 
 static unsigned char vp_O[VP_FS_L + 1], vp_F[VP_FS_L + 1];
@@ -40,11 +40,11 @@ void uncrustify_file(const file_mem &fm, FILE *pfout, const char *parsed_file, c
    (void)parsed_file; (void)dump_file;
    vp_unc_calls++;
    /* C10: the formatter is handed exactly the bytes of the file */
-   if (fm.raw.size() != LO) { vp_raw_ok = false; }
-   for (size_t i = 0; i < fm.raw.size() && i < LO; i++) { if (fm.raw[i] != vp_O[i]) { vp_raw_ok = false; } }
+   if (fm.raw.size() != VPLO) { vp_raw_ok = false; }
+   for (size_t i = 0; i < fm.raw.size() && i < VPLO; i++) { if (fm.raw[i] != vp_O[i]) { vp_raw_ok = false; } }
    if (vp_fmt_fails) { exit(EX_SOFTWARE); }
    cpd.fout = pfout;
-   for (unsigned i = 0; i < LF; i++)
+   for (unsigned i = 0; i < VPLF; i++)
    {
       if (cpd.fout) { fputc(vp_F[i], cpd.fout); }
       if (cpd.bout) { cpd.bout->push_back(vp_F[i]); }
@@ -95,8 +95,8 @@ static void vp_hex_digest_of(const unsigned char *c, unsigned len, unsigned char
 }
 static bool vp_is(int s, const unsigned char *c, unsigned len)
 {
-   if (!vp_fs[s].exists || vp_fs[s].len != len) { return false; }
-   for (unsigned i = 0; i < len; i++) { if (vp_fs[s].d[i] != c[i]) { return false; } }
+   if (!vp_n_exists[s] || vp_n_len[s] != len) { return false; }
+   for (unsigned i = 0; i < len; i++) { if (vp_node_get(s, i) != c[i]) { return false; } }
    return true;
 }
 static void vp_io_setup(bool in_place)
@@ -109,19 +109,22 @@ static void vp_io_setup(bool in_place)
    vp_fs_name[S_TMP2] = 0;
    stdout = (FILE *)(void *)&vp_console_obj;
    stderr = (FILE *)(void *)&vp_console_obj;
-   for (unsigned i = 0; i < LO; i++) { vp_O[i] = vp_u8(); }
-   for (unsigned i = 0; i < LF; i++) { vp_F[i] = vp_u8(); }
-   vp_fs[S_IN].exists = true;
-   vp_fs[S_IN].len    = LO;
-   for (unsigned i = 0; i < LO; i++) { vp_fs[S_IN].d[i] = vp_O[i]; }
+   for (unsigned i = 0; i < VPLO; i++) { vp_O[i] = vp_u8(); }
+   for (unsigned i = 0; i < VPLF; i++) { vp_F[i] = vp_u8(); }
+   vp_n_exists[S_IN] = true;
+   vp_n_len[S_IN]    = VPLO;
+   for (unsigned i = 0; i < VPLO; i++) { vp_node_put(S_IN, i, vp_O[i]); }
    /* arbitrary leftovers of earlier runs: a stale temp file, an old backup */
-   vp_fs[S_TMP].exists = vp_bool();
-   vp_fs[S_TMP].len    = (unsigned)vp_range(0, VP_FS_L);
-   vp_fs[S_BAK].exists = vp_bool();
-   vp_fs[S_BAK].len    = (unsigned)vp_range(0, VP_FS_L);
-   for (unsigned i = 0; i < VP_FS_L; i++) { vp_fs[S_TMP].d[i] = vp_u8(); vp_fs[S_BAK].d[i] = vp_u8(); }
-   vp_fs[S_OUT].exists = in_place ? false : vp_bool();
-   vp_fs[S_OUT].len    = 0;
+   vp_n_exists[S_TMP] = vp_bool();
+   vp_n_len[S_TMP]    = (unsigned)vp_range(0, VP_FS_L);
+   vp_n_exists[S_BAK] = vp_bool();
+   vp_n_len[S_BAK]    = (unsigned)vp_range(0, VP_FS_L);
+   for (unsigned i = 0; i < VP_FS_L; i++) { vp_node_put(S_TMP, i, vp_u8()); vp_node_put(S_BAK, i, vp_u8()); }
+   vp_n_exists[S_OUT] = in_place ? false : vp_bool();
+   vp_n_len[S_OUT]    = 0;
+#ifndef VP_REAL_STL
+   new (&cpd.filename) std::string();     /* the solver build starts from all-zero storage: give the string a valid empty state */
+#endif
    cpd.lang_flags  = e_LANG_C;
    cpd.lang_forced = true;
    cpd.bout        = nullptr;
@@ -131,14 +134,16 @@ static unsigned char vp_X[VP_FS_L + 1];
 static unsigned      vp_XL;
 static void vp_md5_prestate()
 {
-   vp_fs_md5.exists = vp_bool();
+   vp_n_exists[S_MD5] = vp_bool();
    vp_XL = (unsigned)vp_range(0, VP_FS_L);
    for (unsigned i = 0; i < VP_FS_L; i++) { vp_X[i] = vp_u8(); }
-   vp_hex_digest_of(vp_X, vp_XL, vp_fs_md5.d);
-   vp_fs_md5.len = 36;
-   bool same = (vp_XL == LO);
-   for (unsigned i = 0; i < LO; i++) { if (vp_X[i] != vp_O[i]) { same = false; } }
-   vp_md5_matches_O = vp_fs_md5.exists && same;
+   unsigned char hx[36];
+   vp_hex_digest_of(vp_X, vp_XL, hx);
+   for (unsigned i = 0; i < 36; i++) { vp_node_put(S_MD5, i, hx[i]); }
+   vp_n_len[S_MD5] = 36;
+   bool same = (vp_XL == VPLO);
+   for (unsigned i = 0; i < VPLO; i++) { if (vp_X[i] != vp_O[i]) { same = false; } }
+   vp_md5_matches_O = vp_n_exists[S_MD5] && same;
 }
 static void vp_schedule(bool crash, int nfaults)
 {
@@ -152,17 +157,18 @@ static void vp_schedule(bool crash, int nfaults)
 
 /* ---- at-termination assertions */
 enum { M_ATOMIC = 1, M_FUNNEL, M_CHECK, M_IFCH, M_BKSTEP };
+static void vp_at_termination(int how, int status);
 static void vp_at_termination(int how, int status)
 {
    vp_observe("file-ops", vp_ncalls);
    vp_observe("how", (uint64_t)how);
    if (vp_mode == M_ATOMIC)
    {
-      bool isO = vp_is(S_IN, vp_O, LO), isF = vp_is(S_IN, vp_F, LF);
+      bool isO = vp_is(S_IN, vp_O, VPLO), isF = vp_is(S_IN, vp_F, VPLF);
       vp_assert(isO || isF, "C13:target holds neither the complete original nor the complete formatted bytes");
       if (!vp_no_backup && !isO)
       {
-         vp_assert(vp_is(S_BAK, vp_O, LO), "C13:target was replaced but no backup holds exactly the original bytes");
+         vp_assert(vp_is(S_BAK, vp_O, VPLO), "C13:target was replaced but no backup holds exactly the original bytes");
       }
       if (how == 0)
       {
@@ -207,5 +213,167 @@ extern "C" void vp_io_atomic()
    vp_schedule(CRASH != 0, NFAULTS);
    do_source_file("f", "f", nullptr, nullptr, vp_no_backup, false, true);
    vp_at_termination(vp_dead ? 2 : 0, 0);
+   vp_witness("end");
+}
+
+/* ======================================================================================
+ * IO-FUNNEL (C10): every delivery/output mode hands the formatter the bytes of the file and
+ * delivers the formatter's bytes unmodified to the target. No faults, no crash. */
+static bool vp_console_got_F;
+extern "C" void vp_io_funnel()
+{
+   vp_io_setup(false);
+   vp_md5_prestate();
+   vp_mode = M_FUNNEL;
+#ifdef FMODE
+   unsigned mode = FMODE;                           /* delivery mode concrete per instance */
+#else
+   unsigned mode = (unsigned)vp_range(0, 2);        /* 0: in place, 1: -o other file, 2: stdout */
+#endif
+#ifdef NOBACKUP
+   vp_no_backup   = (NOBACKUP != 0);
+#else
+   vp_no_backup   = vp_bool();
+#endif
+   cpd.if_changed = vp_bool();
+   cpd.do_check   = false;
+   if (cpd.if_changed) { cpd.bout = &vp_bout; }
+   unsigned diag0 = vp_diag;
+   do_source_file("f", mode == 0 ? "f" : (mode == 1 ? "o" : nullptr), nullptr, nullptr, vp_no_backup, false, true);
+   vp_assert(vp_unc_calls == 1, "C10:formatter not run exactly once for the file");
+   vp_assert(vp_raw_ok, "C10:formatter was handed bytes other than the file's");
+   bool same = (VPLO == VPLF);
+   for (unsigned i = 0; i < VPLO && i < VPLF; i++) { if (vp_O[i] != vp_F[i]) { same = false; } }
+   if (mode == 0)
+   {
+      vp_assert(vp_is(S_IN, vp_F, VPLF), "C10:in-place target does not hold the formatter's bytes");
+   }
+   else if (mode == 1)
+   {
+      if (!(cpd.if_changed && same)) { vp_assert(vp_is(S_OUT, vp_F, VPLF), "C10:-o target does not hold the formatter's bytes"); }
+      vp_assert(vp_is(S_IN, vp_O, VPLO), "C10:source file modified although output goes elsewhere");
+   }
+   else
+   {
+      if (!(cpd.if_changed && same)) { vp_assert(vp_diag - diag0 == VPLF, "C10:stdout did not receive exactly the formatter's bytes"); }
+      vp_assert(vp_is(S_IN, vp_O, VPLO), "C10:source file modified although output goes to stdout");
+   }
+   vp_witness("end");
+}
+
+/* CHK-CMP (C12): bout_content_matches is byte equality, and reports accordingly */
+#ifndef VPLB
+#define VPLB VPLF
+#endif
+extern "C" void vp_chk_cmp()
+{
+   file_mem fm;
+#ifndef VP_REAL_STL
+   new (&cpd.filename) std::string();     /* the solver build starts from all-zero storage: give the string a valid empty state */
+#endif
+   cpd.filename = "f";
+   stdout = (FILE *)(void *)&vp_console_obj;
+   stderr = (FILE *)(void *)&vp_console_obj;
+   bool eq = (VPLO == VPLB);
+   for (unsigned i = 0; i < VPLO; i++) { UINT8 b = vp_u8(); fm.raw.push_back(b); vp_O[i] = b; }
+   for (unsigned i = 0; i < VPLB; i++) { UINT8 b = vp_u8(); vp_bout.push_back(b); if (i < VPLO && b != vp_O[i]) { eq = false; } }
+   cpd.bout = &vp_bout;
+   bool report = vp_bool(), quiet = vp_bool();
+   unsigned d0 = vp_diag;
+   bool r = bout_content_matches(fm, report, quiet);
+   vp_assert(r == eq, "C12:comparison result is not byte equality of input and formatted output");
+   if (report && !eq) { vp_assert(vp_diag > d0, "C12:difference found but no FAIL line"); }
+   if (report && eq && quiet) { vp_assert(vp_diag == d0, "C12:PASS line printed although quiet"); }
+   if (!report) { vp_assert(vp_diag == d0, "C12:status line printed although not requested"); }
+   vp_witness("end");
+}
+
+/* CHK-NOWRITE / IFCH (C12): --check never touches the file system; --if-changed writes only on a difference */
+extern "C" void vp_chk_nowrite()
+{
+   vp_io_setup(false);
+   vp_md5_prestate();
+   vp_mode = M_CHECK;
+#ifdef CHECKMODE
+   bool check = (CHECKMODE != 0);      /* run mode concrete per instance */
+#else
+   bool check = vp_bool();
+#endif
+   cpd.do_check   = check;
+   cpd.if_changed = !check;
+   cpd.bout       = &vp_bout;
+   vp_fmt_fails   = false;
+#ifdef INPLACE
+   unsigned inplace = INPLACE;
+#else
+   unsigned inplace = (unsigned)vp_range(0, 1);
+#endif
+   /* main() rejects --check together with output options: with --check the output name is absent */
+   const char *out = check ? nullptr : (inplace ? "f" : "o");
+   vp_no_backup = vp_bool();
+   bool same = (VPLO == VPLF);
+   for (unsigned i = 0; i < VPLO && i < VPLF; i++) { if (vp_O[i] != vp_F[i]) { same = false; } }
+   int fails0 = cpd.check_fail_cnt;
+   do_source_file("f", out, nullptr, nullptr, vp_no_backup, false, true);
+   if (check)
+   {
+      vp_assert(vp_mutations == 0 && vp_wopens == 0, "C12:--check created, modified or removed a file");
+      vp_assert(vp_is(S_IN, vp_O, VPLO), "C12:--check changed the source file");
+      vp_assert((cpd.check_fail_cnt - fails0) == (same ? 0 : 1), "C12:failure count does not reflect whether the file would be reproduced");
+      vp_witness("opt:check");
+   }
+   else if (same)
+   {
+      vp_assert(vp_mutations == 0 && vp_wopens == 0, "C12:--if-changed wrote although nothing changed");
+      vp_witness("opt:ifchanged-same");
+   }
+   else
+   {
+      vp_assert(vp_is(inplace ? S_IN : S_OUT, vp_F, VPLF), "C12:--if-changed did not write exactly the formatted bytes");
+      vp_witness("opt:ifchanged-diff");
+   }
+   vp_witness("end");
+}
+
+/* BK-STEP (C14): one --replace run from an arbitrary state satisfying the protocol invariant.
+ * Ghost state: U = what uncrustify last left in the file (vp_X, recorded in the md5 side file),
+ *              B = the backup content. Invariant Inv: md5 file absent (no run yet), or md5 file == md5(U).
+ * Step: the user may have edited the file since (content O arbitrary; O == U means "no edit").
+ * After the run: md5 file describes the new content of the file, and the backup holds the user's
+ * text O if the user had edited (O != U), else is unchanged. */
+extern "C" void vp_bk_step()
+{
+   vp_io_setup(true);
+   vp_md5_prestate();
+   vp_mode = M_BKSTEP;
+   unsigned char B0[VP_FS_L + 1];
+   unsigned      B0len = vp_n_len[S_BAK];
+   bool          B0ex  = vp_n_exists[S_BAK];
+   for (unsigned i = 0; i < VP_FS_L; i++) { B0[i] = vp_node_get(S_BAK, i); }
+   vp_no_backup   = false;
+   vp_fmt_fails   = false;
+   cpd.if_changed = false;
+   cpd.do_check   = false;
+   bool edited = !vp_md5_matches_O;     /* first run ever, or content differs from what uncrustify left */
+   do_source_file("f", "f", nullptr, nullptr, false, false, true);
+   vp_assert(vp_is(S_IN, vp_F, VPLF), "C14:file does not hold the formatted text after the run");
+   /* the md5 side file describes the content uncrustify left */
+   unsigned char want[36];
+   vp_hex_digest_of(vp_F, VPLF, want);
+   bool md5ok = vp_n_exists[S_MD5] && vp_n_len[S_MD5] == 36;
+   for (unsigned i = 0; i < 32; i++) { if (vp_node_get(S_MD5, i) != want[i]) { md5ok = false; } }
+   vp_assert(md5ok, "C14:md5 side file does not describe the content uncrustify left in the file");
+   if (edited)
+   {
+      vp_assert(vp_is(S_BAK, vp_O, VPLO), "C14:backup does not hold the text the user had written");
+      vp_witness("opt:edited");
+   }
+   else
+   {
+      bool keep = (vp_n_exists[S_BAK] == B0ex) && (!B0ex || vp_n_len[S_BAK] == B0len);
+      for (unsigned i = 0; B0ex && i < B0len && i < VP_FS_L; i++) { if (vp_node_get(S_BAK, i) != B0[i]) { keep = false; } }
+      vp_assert(keep, "C14:backup overwritten although the file held uncrustify's own last output");
+      vp_witness("opt:not-edited");
+   }
    vp_witness("end");
 }
